@@ -390,7 +390,8 @@ def impl_main(payload):
     SinglePointCrossover.__call__, SinglePointMutation.__call__ = ocx, omu
     agraph = agraph_runs(payload.get("agraph_runs", 0), payload["seed"], mon)
     scaled = scaled_runs(payload.get("scaled_runs", 0), payload["seed"], mon)
-    return dict(results=results, agraph=agraph, scaled=scaled)
+    floats = float_runs(payload.get("float_runs", 0), payload["seed"], mon)
+    return dict(results=results, agraph=agraph, scaled=scaled, floats=floats)
 
 
 def agraph_runs(nruns, seed, mon):
@@ -567,15 +568,94 @@ def scaled_runs(nruns, seed, mon):
     return out
 
 
+def float_runs(nruns, seed, mon):
+    """MultipleFloatChromosome islands whose fitness goes through LocalOptFitnessFunction + ScipyOptimizer: local optimisation
+    rewrites the optimised genes IN PLACE (set_local_optimization_params writes into the values list), from a random start
+    and on a multi-modal objective - so any two individuals that share a genome container (a replica and its parent, say) stop
+    agreeing with the fitness stored in the other one.  Monitor and boundary oracle only."""
+    import numpy as np
+    from bingo.chromosomes.multiple_floats import MultipleFloatChromosomeGenerator
+    from bingo.chromosomes.multiple_values import SinglePointCrossover, SinglePointMutation
+    from bingo.evaluation.evaluation import Evaluation
+    from bingo.evaluation.fitness_function import FitnessFunction
+    from bingo.evolutionary_algorithms.age_fitness import AgeFitnessEA
+    from bingo.evolutionary_algorithms.evolutionary_algorithm import EvolutionaryAlgorithm
+    from bingo.evolutionary_algorithms.mu_plus_lambda import MuPlusLambda
+    from bingo.evolutionary_algorithms.mu_comma_lambda import MuCommaLambda
+    from bingo.evolutionary_optimizers.island import Island
+    from bingo.local_optimizers.local_opt_fitness import LocalOptFitnessFunction
+    from bingo.local_optimizers.scipy_optimizer import ScipyOptimizer
+    from bingo.selection.tournament import Tournament
+    from bingo.stats.hall_of_fame import HallOfFame
+    from bingo.variation.var_or import VarOr
+
+    def bumpy(values):
+        v = np.asarray(values, dtype=float)
+        return float(np.sum(np.sin(5.0 * v) + 0.3 * v * v) + 0.01 * np.sum(v * np.arange(1, len(v) + 1)))
+
+    class Bumpy(FitnessFunction):
+        def __call__(self, individual):
+            self.eval_count += 1
+            return bumpy(individual.values)
+    out = dict(runs=0, viol=[], samples=[], replicas_seen=0)
+    mon.cur = None
+    mon.truth = lambda ind: bumpy(ind.values)
+    rng = random.Random(seed + 3)
+    for r in range(nruns):
+        s = rng.randrange(10 ** 6)
+        np.random.seed(s)
+        random.seed(s)
+        kind = r % 4
+        val = lambda: float(np.random.uniform(-2, 2))  # noqa
+        cx, mu = SinglePointCrossover(), SinglePointMutation(val)
+        base = Bumpy()
+        ev = Evaluation(LocalOptFitnessFunction(base, ScipyOptimizer(base, method=["Nelder-Mead", "BFGS"][(r // 4) % 2], param_init_bounds=[-2, 2])))
+        cgen = MultipleFloatChromosomeGenerator(val, 4, needs_opt_list=[[1, 3], [0], [0, 1, 2, 3]][r % 3])
+        if kind == 0:
+            ea = MuPlusLambda(ev, Tournament(2), cx, mu, 0.3, 0.3, 8)
+        elif kind == 1:
+            ea = MuCommaLambda(ev, Tournament(2), cx, mu, 0.3, 0.3, 16)
+        elif kind == 2:
+            ea = EvolutionaryAlgorithm(VarOr(cx, mu, 0.3, 0.3), ev, Tournament(2))
+        else:
+            ea = AgeFitnessEA(ev, cgen, cx, mu, 0.3, 0.4, 8)
+        isl = Island(ea, cgen, 8, hall_of_fame=HallOfFame(3))
+        mon.bad_reads = []
+        try:
+            for gno in range(rng.randint(2, 4)):
+                isl.evolve(1)
+                isl.get_best_individual()
+                members = list(isl.population) + list(isl.hall_of_fame)
+                for p in members:
+                    if p._fit_set and not mon.same(float(p._fitness), bumpy(p.values)):
+                        out["viol"].append("MultipleFloatChromosome island with local optimisation, algorithm kind %d, seed %d, generation %d: an "
+                                           "individual marked evaluated carries %r, the fitness of its values %r is %r"
+                                           % (kind, s, gno, p._fitness, list(p.values), bumpy(p.values)))
+                        break
+                if mon.bad_reads:
+                    out["viol"].append("MultipleFloatChromosome island kind %d seed %d generation %d: %s" % (kind, s, gno, mon.bad_reads[0]))
+                if out["viol"]:
+                    break
+        except Exception as e:  # noqa
+            out["viol"].append("MultipleFloatChromosome run seed %d kind %d raised %r" % (s, kind, e))
+        out["runs"] += 1
+        if len(out["samples"]) < 4:
+            out["samples"].append(dict(seed=s, kind=kind))
+        if out["viol"]:
+            break
+    return out
+
+
 def check(rep, proof):
     runs = 250 if rep.tier == "quick" else 5000
     rc, res, out, wall = vlib.run_impl("c05", dict(runs=runs, seed=rep.seed, agraph_runs=16 if rep.tier == "quick" else 160,
-                                                   scaled_runs=48 if rep.tier == "quick" else 800),
+                                                   scaled_runs=48 if rep.tier == "quick" else 800,
+                                                   float_runs=16 if rep.tier == "quick" else 240),
                                        timeout=3400)
     if res is None:
         rep.violation("implementation harness crashed", dict(relation="corr_C05_pipeline", log=out[-3000:]), has_input=False)
         return
-    results, ag, sc = res["results"], res["agraph"], res["scaled"]
+    results, ag, sc, fr = res["results"], res["agraph"], res["scaled"], res["floats"]
     steps = [r for r in results if r["kind"] == "step"]
     oracle_bad = [r for r in results if r["viol"]]
     pairs = [(coq_case(r["case"]), r["out"]) for r in steps]
@@ -587,7 +667,7 @@ def check(rep, proof):
     pairs3 = [(coq_case3(r["case"]), r["out"]) for r in exch]
     bad3, log3 = vlib.coq_compare("c05x", HEADER, RUNNER3, pairs3)
     rep.coverage.update(
-        evaluations=len(steps) + ag["runs"] + sc["runs"],
+        evaluations=len(steps) + ag["runs"] + sc["runs"] + fr["runs"],
         distinct_nontrivial=len({repr(r["case"]) for r in steps if len(r["case"]["specs"]) >= 2}),
         rule="real islands (value chromosomes, five algorithms incl. the base EvolutionaryAlgorithm with VarAnd/VarOr) driven through "
              "random sequences of generational steps, fitness resets, population regenerations, best-individual queries and hall-of-fame "
@@ -609,7 +689,8 @@ def check(rep, proof):
                             island_disagreements=len(bad2), archipelago_exchanges=len(exch), exchange_disagreements=len(bad3)),
         agraph=dict(runs=ag["runs"], violations=len(ag["viol"])),
         scaled_genes=dict(runs=sc["runs"], violations=len(sc["viol"]), samples=sc["samples"]),
-        oracle_violations=len(oracle_bad) + len(ag["viol"]) + len(sc["viol"]),
+        float_chromosomes_with_local_optimisation=dict(runs=fr["runs"], violations=len(fr["viol"]), samples=fr["samples"]),
+        oracle_violations=len(oracle_bad) + len(ag["viol"]) + len(sc["viol"]) + len(fr["viol"]),
         distribution=dict((EAS[k], sum(1 for r in steps if r["case"]["ea"] == k)) for k in range(5)),
     )
     rep.assumptions += [
@@ -623,6 +704,9 @@ def check(rep, proof):
         rep.violation("; ".join(r["viol"][:3]), dict(case=r["case"], oracle=r["viol"]))
     elif ag["viol"]:
         rep.violation(ag["viol"][0], dict(kind="AGraph island run", detail=ag["viol"][:4]))
+    elif fr["viol"]:
+        rep.violation(fr["viol"][0], dict(kind="MultipleFloatChromosome island run with in-place local optimisation", detail=fr["viol"][:4],
+                                          how="tools/props/c05.py float_runs (seed %d)" % rep.seed))
     elif sc["viol"]:
         rep.violation(sc["viol"][0], dict(kind="value-chromosome island run with closely spaced genes", detail=sc["viol"][:4],
                                           how="tools/props/c05.py scaled_runs (seed %d)" % rep.seed))
